@@ -201,7 +201,12 @@ def suite_fps_cli(seed, tier):
             d.mkdir()
             forced = boundary[k - n_cases] if k >= n_cases else None
             n = forced[0] if forced else rng.randint(1, 40)
-            A = np.random.default_rng(rng.randint(0, 2 ** 31)).integers(0, 256, (n, 4), dtype=np.uint8)
+            # every integer dtype a fingerprint file may have (the property quantifies over dtypes): values
+            # beyond 255, negative values, wide items
+            dt = rng.choice([np.uint8, np.uint8, np.int8, np.uint16, np.int16, np.int64, np.uint32])
+            info = np.iinfo(dt)
+            A = np.random.default_rng(rng.randint(0, 2 ** 31)).integers(
+                max(info.min, -300), min(info.max, 70000) + 1, (n, 4)).astype(dt)
             src = d / "fps.npy"
             np.save(src, A)
             # ---- split by parts / by max-fps, then merge
@@ -227,14 +232,16 @@ def suite_fps_cli(seed, tier):
                         r.bad.append({"suite": "fps-cli", "what": "split part names are not the zero-padded "
                                       "sequence in part order", "names": [f.name for f in files], "expected": exp_names})
                     cat = np.concatenate([np.load(f) for f in files])
-                    if cat.tolist() != A.tolist():
+                    if cat.tolist() != A.tolist() or cat.dtype != A.dtype:
                         r.bad.append({"suite": "fps-cli", "what": "concatenating the split parts in name order "
                                       "does not reproduce the file", "n": n, "args": args[4:]})
                     rc, out, exc = _invoke(["fps-merge", str(d / "split"), "-o", str(d / "merged")])
                     merged = np.load(d / "merged" / "fps.npy") if rc == 0 else None
-                    if merged is None or merged.tolist() != A.tolist():
+                    if merged is None or merged.tolist() != A.tolist() or merged.dtype != A.dtype:
                         r.bad.append({"suite": "fps-cli", "what": "fps-merge of the split parts differs from "
-                                      "the original", "n": n, "args": args[4:]})
+                                      f"the original (dtype {A.dtype}"
+                                      + ("" if merged is None else f", merged dtype {merged.dtype}") + ")",
+                                      "n": n, "args": args[4:], "dtype": str(np.dtype(dt)), "rows": A.tolist()[:6]})
                     # model: names and order
                     terms.append("list_eqb String.eqb (map fst (split_parts \"fps\"%string "
                                  f"{cz(digits)} {cnat(per)} {czl(list(range(n)))})) "
@@ -245,7 +252,7 @@ def suite_fps_cli(seed, tier):
             rc, out, exc = _invoke(["fps-shuffle", str(src), "-o", str(d / "sh"), "--seed", str(rng.randint(0, 99))])
             cases += 1
             sh = np.load(d / "sh" / "shuffled-fps.npy") if rc == 0 else None
-            if sh is None or sorted(map(tuple, sh.tolist())) != sorted(map(tuple, A.tolist())):
+            if sh is None or sorted(map(tuple, sh.tolist())) != sorted(map(tuple, A.tolist())) or sh.dtype != A.dtype:
                 r.bad.append({"suite": "fps-cli", "what": "fps-shuffle does not preserve the multiset of rows", "n": n})
             # ---- info on file, dir, 1-D and float files
             np.save(d / "oned.npy", np.arange(5, dtype=np.uint8))
